@@ -1,13 +1,13 @@
 """C18 - dedent removes exactly the longest common whitespace margin."""
 from ..sym import sym_of, subterms
 from ..engine import AnchorMissing, loop_models, iter_chain
-from ..poly import poly, fact_nf
+from ..poly import poly, fact_nf, GT0
 from ..paths import loop_system, PathView
 from ..describe import describe
 from ..idioms import blank_fact
 from ..engines.schemas import range_parts, index_iter_base, item_source, resolve_iter
 from .common import configs_for
-from .util import Rule, guarded, site_of_block
+from .util import Rule, guarded, site_of_block, check_visits_all
 from . import models
 from .C19 import _paths_to_return
 
@@ -50,6 +50,26 @@ def _lines_of(prog, body, lm, S):
         return False
     src = resolve_iter(prog, body, arg0, lm.next_block)
     return src is not None and src[0] == "call" and src[1] == "str::lines" and src[2][0] == S
+
+
+def _first_nonws_find(prog, body, k, L):
+    """k is L.find(<not whitespace>)?Some.0 or L.find(<not whitespace>).unwrap_or(L.len()):
+    returns (the find call, has_default) or None."""
+    from ..engines.schemas import closure_return_term
+    call, dflt = None, False
+    if k[0] == "call" and k[1] == "Option::unwrap_or" and len(k[2]) == 2 and k[2][1] == ("call", "str::len", (L,)):
+        call, dflt = k[2][0], True
+    elif k[0] == "field" and k[2] == "0" and k[1][0] == "as" and k[1][2] == "Some":
+        call = k[1][1]
+    if call is None or call[0] != "call" or call[1] != "str::find" or len(call[2]) != 2 or call[2][0] != L:
+        return None
+    cb, ret = closure_return_term(prog, call[2][1])
+    if cb is None:
+        return None
+    if ret[0] == "un" and ret[1] == "Not" and ret[2][0] == "call" and ret[2][1] == "char::is_whitespace" \
+            and ret[2][2][0][0] == "param" and ret[2][2][0][1] == 2:
+        return (call, dflt)
+    return None
 
 
 def _char_of_line(prog, body, c, L):
@@ -111,6 +131,7 @@ def _check(prog, rep):
     r5.check(_lines_of(prog, body, out_lm, S), "output-lines", "the output pass iterates s.lines()", D(out_lm.source),
              "the output pass iterates %s instead of s.lines()" % D(out_lm.source))
     L_out = out_lm.item
+    check_visits_all(Rule(rep, "C18.R3", KEY, site=body.span), body, out_lm, "dedent's output pass")
     trans_out = loop_system(prog, body, out_lm, [], [res])
     # margin: second argument of starts_with(line, M) in the output pass
     margin = None
@@ -193,6 +214,7 @@ def _check(prog, rep):
     r2 = Rule(rep, "C18.R2", KEY, site=body.span)
     defsites = s.defsites(mpk)
     ndefs = 0
+    narrowing = {}
     for b, idxs in sorted(defsites.items()):
         for i in idxs:
             if i == "term":
@@ -254,6 +276,15 @@ def _check(prog, rep):
                             ci = _char_of_line(prog, body, x, L)
                             if ci is not None and ci is not True and ci == k:
                                 how = how or "k is the offset of the first char differing from the margin"
+                # k = line.find(|c| !c.is_whitespace()) [.unwrap_or(line.len())]: the offset of the first non-whitespace
+                # char by definition of str::find; the line has one iff the search succeeded (k < line.len())
+                fk = _first_nonws_find(prog, body, k, L)
+                if fk is not None:
+                    how = how or "k is the offset of the first char failing is_whitespace"
+                    nfs = {fact_nf(f) for f in tr.facts if f[0][0] == "cmp"}
+                    some = any(a[0] == "variant" and a[1] == fk[0] and ((a[2] == "Some") == pol) for a, pol in tr.facts)
+                    if some or (fk[1] and GT0(poly(("call", "str::len", (L,))) - poly(k)) in nfs):
+                        ev = ev or "the search for a non-whitespace char succeeded on this path"
                 r1.check(ev is not None, "nonblank-evidence",
                          "a margin update from a line is conditional on that line having a non-whitespace char", ev or "",
                          "the margin is updated from a line (to %s) on a path whose condition does not establish that the line "
@@ -263,6 +294,8 @@ def _check(prog, rep):
                     r2.check(tr.kind == "exit", "seed-once", "after seeding the margin from a line the seed loop is left",
                              "the seeding path is an exit path", "the margin is seeded from a line's leading whitespace on a path that "
                              "stays in the loop: every later non-blank line would overwrite the margin instead of narrowing it", site=site)
+                if how is not None and "differing from the margin" in how:
+                    narrowing[lmm.header] = lmm
                 r2.check(how is not None, "cut-offset", "k is a scanned character offset of the same line", how or "",
                          "the margin is cut at %s, which is not the offset of the char at which the scan of this line stopped "
                          "(first non-whitespace char / first mismatch with the margin)" % D(k), site=site)
@@ -281,6 +314,8 @@ def _check(prog, rep):
                         r2.check(good, "scan-continues", "the scan continues only past whitespace / matching chars",
                                  "back edge condition", "the character scan in %s continues past a char without testing it" % KEY,
                                  site=site_of_block(body, inner.header), nontrivial=False)
+    for _h, nlm in sorted(narrowing.items()):
+        check_visits_all(r2, body, nlm, "dedent's narrowing loop over the remaining lines")
     r1.check(ndefs >= 2, "defs-found", "seed and narrowing definitions of the margin found", "%d definitions" % ndefs,
              "expected at least two non-constant definitions of the margin (seed, narrowing), found %d" % ndefs, nontrivial=False)
 
